@@ -212,6 +212,22 @@ fn apply_and_check<T: Copy>(
                 return false;
             }
         };
+        // the tracker's one-number summary (what the HMC progress bar prints): the largest per-parameter value
+        if multi.iter().all(|x| !x.is_nan()) {
+            match catch(|| node.multi.max_rhat().map_err(|e| e.to_string())) {
+                Ok(Ok(m)) => {
+                    let want = multi.iter().cloned().fold(f32::NEG_INFINITY, f32::max);
+                    ctx.outcome("max_rhat-compared", 1);
+                    if m.to_bits() != want.to_bits() {
+                        ctx.violation(mk(node, "C13:max-rhat", format!("MultiChainTracker::max_rhat {m} is not the maximum {want} of MultiChainTracker::rhat {:?}", multi.to_vec())));
+                    }
+                }
+                Ok(Err(e)) => ctx.violation(mk(node, "C13:max-rhat", format!("MultiChainTracker::max_rhat failed ({e}) although every per-parameter value is a number: {:?}", multi.to_vec()))),
+                Err(m) => ctx.violation(mk(node, "C13:panic", format!("MultiChainTracker::max_rhat panicked: {m}"))),
+            }
+        } else {
+            ctx.outcome("max_rhat-skipped(NaN entry: undefined)", 1);
+        }
         for k in 0..n_params {
             let ns: Vec<f64> = stats.iter().map(|s| s.n as f64).collect();
             let ms: Vec<f64> = stats.iter().map(|s| s.mean[k] as f64).collect();
